@@ -71,23 +71,23 @@ type poolNode struct {
 }
 
 type fanSend struct {
-	ID         int
-	Type       string
-	CancelMode string // never, pre, task, deadline
-	Cause      bool   // the context is ended WITH A CAUSE (WithCancelCause / WithTimeoutCause): ctx.Err() stays Canceled / DeadlineExceeded
-	CancelAfter int   // yields the canceller waits / deadline in ns
+	ID          int
+	Type        string
+	CancelMode  string // never, pre, task, deadline
+	Cause       bool   // the context is ended WITH A CAUSE (WithCancelCause / WithTimeoutCause): ctx.Err() stays Canceled / DeadlineExceeded
+	CancelAfter int    // yields the canceller waits / deadline in ns
 	// results
-	status     el.Status
-	err        error
-	returned   bool
-	invokeStep int
-	returnStep int
-	cancelStep int // step at which cancel() ran (0: not yet)
-	cancel     context.CancelFunc
-	NodeCancels string // label of a node that cancels this Send's context when it is entered ("": none)
+	status         el.Status
+	err            error
+	returned       bool
+	invokeStep     int
+	returnStep     int
+	cancelStep     int // step at which cancel() ran (0: not yet)
+	cancel         context.CancelFunc
+	NodeCancels    string // label of a node that cancels this Send's context when it is entered ("": none)
 	ctxErrAtReturn error
-	ctx        context.Context
-	task       *simrt.Task
+	ctx            context.Context
+	task           *simrt.Task
 }
 
 type fanDesc struct {
@@ -210,7 +210,7 @@ func runFanout(rc *RunCtx, o fanOpts) {
 	}
 
 	var thrChanges []thrChange
-	knownSince := map[string]int{} // types that only became known (through a concurrent setter) at this step
+	knownSince := map[string]int{}  // types that only became known (through a concurrent setter) at this step
 	graphKnown := map[string]bool{} // types the Broker has been told about
 	// registration history: 0..4 pipelines survive; overwrites and removals on the way
 	maxP := 4
